@@ -323,6 +323,15 @@ struct Exporter {
         J.attribute("v", (int64_t)CL->getValue());
       } else if (auto *BL = dyn_cast<CXXBoolLiteralExpr>(S)) {
         J.attribute("v", BL->getValue() ? 1 : 0);
+      } else if (auto *DA = dyn_cast<CXXDefaultArgExpr>(S)) {
+        // literal value of a defaulted argument (the expression itself belongs to the callee's declaration)
+        if (const Expr *DE = DA->getExpr()) {
+          DE = DE->IgnoreParenImpCasts();
+          if (auto *DB = dyn_cast<CXXBoolLiteralExpr>(DE))
+            J.attribute("v", DB->getValue() ? 1 : 0);
+          else if (auto *DI = dyn_cast<IntegerLiteral>(DE))
+            J.attribute("v", (int64_t)DI->getValue().getLimitedValue());
+        }
       } else if (auto *SL = dyn_cast<StringLiteral>(S)) {
         if (SL->getCharByteWidth() == 1)
           J.attribute("s", SL->getBytes());
